@@ -28,13 +28,18 @@ func VF_C01_L1_Converge() {
 	w := vfNewWorld(Config{})
 	// legacy: both clients negotiated protocol 1.2.0 (soft references arrive
 	// as plain rid strings, data values as the "[Data]" placeholder)
-	legacy := zzvf.ParamOr("legacy", 0) == 1
-	proto := versionLatest
-	if legacy {
-		proto = 1002000
+	// (legacy=2: client A on 1.2.0, client B on the latest version; legacy=3
+	// the other way round - both share the cached model)
+	lp := zzvf.ParamOr("legacy", 0)
+	legacyA, legacyB := lp == 1 || lp == 2, lp == 1 || lp == 3
+	protoOf := func(l bool) int {
+		if l {
+			return 1002000
+		}
+		return versionLatest
 	}
-	enc := func(raw string) string {
-		if !legacy {
+	encFor := func(l bool, raw string) string {
+		if !l {
 			return raw
 		}
 		switch raw {
@@ -45,20 +50,27 @@ func VF_C01_L1_Converge() {
 		}
 		return raw
 	}
-	clA := w.connect("cidA", proto)
-	clB := w.connect("cidB", proto)
+	clA := w.connect("cidA", protoOf(legacyA))
+	clB := w.connect("cidB", protoOf(legacyB))
 	rA, rB := vfNewRun(w, clA), vfNewRun(w, clB)
 	refA, refB := vfNewRefClient(), vfNewRefClient()
 	rid := "test.col"
 	svcCol := []string{`"a"`, `"b"`}
 	svcModel := map[string]string{"a": `"x"`}
+	if zzvf.ParamOr("richinit", 0) == 1 {
+		// the model holds a soft reference and a data value from the start,
+		// so that clients of different protocol versions are served from
+		// the same cached snapshot
+		svcModel["s"] = `{"rid":"test.soft","soft":true}`
+		svcModel["d"] = `{"data":{"x":[1]}}`
+	}
 	child := `{"model":{"n":1}}`
 	get := func() string {
 		if isModel {
 			var sb strings.Builder
 			sb.WriteString(`{"model":{`)
 			first := true
-			for _, k := range []string{"a", "b", "c"} {
+			for _, k := range []string{"a", "b", "c", "d", "s"} {
 				if v, ok := svcModel[k]; ok {
 					if !first {
 						sb.WriteByte(',')
@@ -265,6 +277,10 @@ func VF_C01_L1_Converge() {
 			continue
 		}
 		if isModel {
+			enc := func(raw string) string { return encFor(legacyA, raw) }
+			if ref == refB {
+				enc = func(raw string) string { return encFor(legacyB, raw) }
+			}
 			same := len(res.model) == len(svcModel)
 			for k, v := range svcModel {
 				if res.model[k] != enc(v) {
